@@ -49,6 +49,9 @@ type nJob struct {
 	cancelled chan struct{}
 	once      sync.Once
 	cancelN   int
+	inflight  int
+	cancelOne int  // how many in-flight tasks may react to the cancel now
+	cancelAll bool // every in-flight task may react to the cancel
 	tasksSeen map[string][]string
 	envSeen   map[string]string
 }
@@ -161,6 +164,14 @@ func (m *nRunner) Run(t *task.Task) error {
 	if m.onChange != nil {
 		m.onChange(t)
 	}
+	w.mu.Lock()
+	nj.inflight++
+	w.mu.Unlock()
+	defer func() {
+		w.mu.Lock()
+		nj.inflight--
+		w.mu.Unlock()
+	}()
 	var err error
 	for {
 		w.mu.Lock()
@@ -179,7 +190,18 @@ func (m *nRunner) Run(t *task.Task) error {
 		cancelled := false
 		select {
 		case <-nj.cancelled:
-			cancelled = true
+			// a task reacts to the stop when the trace says so (TASKCANCELED: one task; RET / end: all)
+			w.mu.Lock()
+			if nj.cancelAll {
+				cancelled = true
+			} else if nj.cancelOne > 0 {
+				nj.cancelOne--
+				cancelled = true
+			}
+			w.mu.Unlock()
+			if !cancelled {
+				time.Sleep(2 * time.Millisecond)
+			}
 		case <-time.After(5 * time.Millisecond):
 		}
 		if cancelled {
@@ -221,6 +243,7 @@ func nTasks(gen int) map[string]definition.TaskDef {
 		return map[string]definition.TaskDef{
 			"a": {Script: []string{"echo a0"}},
 			"b": {Script: []string{"echo b0"}, DependsOn: []string{"a"}, Env: map[string]string{"T": "b0"}},
+			"c": {Script: []string{"echo c0"}},
 		}
 	}
 	return map[string]definition.TaskDef{
@@ -233,6 +256,9 @@ func nDefs(model map[string]string, tag string, gen int) *definition.PipelinesDe
 	c := nBV(model[tag+".concurrency"])
 	if c > 64 {
 		c = 64
+	}
+	if os.Getenv("VERIF_REPLAY_VARIANT") == "conc1" {
+		c = 1
 	}
 	def := definition.PipelineDef{
 		Concurrency:                      int(c),
@@ -445,8 +471,63 @@ func (w *nWorld) cancel(nj *nJob) {
 	}
 }
 
+// checkSpans: every interval in which a task of a job runs lies inside the span in which the job is
+// reported as executing (started, not completed, not canceled) - C01, second sentence.
+func (w *nWorld) checkSpans() {
+	w.mu.Lock()
+	jobs := append([]*nJob{}, w.jobs...)
+	w.mu.Unlock()
+	for _, nj := range jobs {
+		w.mu.Lock()
+		inflight := nj.inflight
+		w.mu.Unlock()
+		if inflight == 0 {
+			continue
+		}
+		executing := false
+		_ = w.r.ReadJob(nj.id, func(j *PipelineJob) { executing = j.Start != nil && !j.Completed && !j.Canceled })
+		w.mu.Lock()
+		still := nj.inflight
+		w.mu.Unlock()
+		if !executing && still > 0 {
+			w.violate("C01.slot-held-until-scheduler-returned", nj.name+" has a task executing while the job is reported completed/canceled (its concurrency slot is free)")
+		}
+	}
+}
+
 // settle checks the quiescent-state obligations (C03, C15) once nothing is pending any more.
 func (w *nWorld) settle() {
+	w.checkSpans()
+	// from here on every task that was told to stop may stop
+	w.mu.Lock()
+	for _, nj := range w.jobs {
+		nj.cancelAll = true
+	}
+	w.mu.Unlock()
+	// early drain: tasks may finish at any time - let the jobs that run now finish one by one right
+	// away (before pending start delays elapse); the monitors in Run stay active
+	if os.Getenv("VERIF_NO_DRAIN") == "" {
+		for round := 0; round < 4; round++ {
+			released := false
+			w.mu.Lock()
+			for _, nj := range w.jobs {
+				if !nj.firstRun.IsZero() && nj.mode == 0 {
+					done := false
+					_ = w.r.ReadJob(nj.id, func(j *PipelineJob) { done = j.Completed })
+					if !done {
+						nj.mode = 1
+						released = true
+						break
+					}
+				}
+			}
+			w.mu.Unlock()
+			if !released {
+				break
+			}
+			time.Sleep(170 * time.Millisecond)
+		}
+	}
 	// wait until every pending start delay has certainly elapsed
 	var latest time.Time
 	for _, nj := range w.jobs {
@@ -461,6 +542,40 @@ func (w *nWorld) settle() {
 	}
 	time.Sleep(150 * time.Millisecond)
 	def := w.defs.Pipelines["p"]
+	// drain: let every started job run to success, one round at a time, so that what the trace left
+	// behind (queue order, stranded jobs) becomes observable through Run entries and job states
+	if os.Getenv("VERIF_NO_DRAIN") == "" {
+		for round := 0; round < 12; round++ {
+			r0, nw0, _ := w.counts()
+			if r0 == 0 && nw0 == 0 {
+				break
+			}
+			w.mu.Lock()
+			for _, nj := range w.jobs {
+				if !nj.firstRun.IsZero() && nj.mode == 0 {
+					nj.mode = 1
+					break // one job per round keeps the start order observable
+				}
+			}
+			w.mu.Unlock()
+			time.Sleep(180 * time.Millisecond)
+			var latest2 time.Time
+			for _, nj := range w.jobs {
+				if nj.delay > 0 {
+					if d := nj.accepted.Add(nj.delay); d.After(latest2) {
+						latest2 = d
+					}
+				}
+			}
+			if wait := time.Until(latest2.Add(100 * time.Millisecond)); wait > 0 {
+				time.Sleep(wait)
+			}
+			r1, nw1, _ := w.counts()
+			if r1 == 0 && nw1 > 0 && r0 == 0 && nw0 == nw1 {
+				break // nothing runs and nothing changed: stranded
+			}
+		}
+	}
 	r, nw, _ := w.counts()
 	if nw > 0 && r == 0 {
 		w.violate("C03.waiting-job-has-a-pending-wakeup", fmt.Sprintf("%d job(s) wait, nothing runs, no delay pending", nw))
@@ -503,6 +618,7 @@ func TestVerifReplayBMC(t *testing.T) {
 		if len(f) == 0 {
 			continue
 		}
+		w.checkSpans()
 		switch f[0] {
 		case "SCHED":
 			w.schedule(f[1] == "reserved")
@@ -522,6 +638,7 @@ func TestVerifReplayBMC(t *testing.T) {
 			case "task-error":
 				nj.mode = 2
 			}
+			nj.cancelAll = true
 			w.mu.Unlock()
 			if !w.waitCompleted(nj, 5*time.Second) {
 				t.Logf("replay: %s did not complete within 5s after %q", nj.name, ev)
@@ -539,6 +656,13 @@ func TestVerifReplayBMC(t *testing.T) {
 				if wait := time.Until(nj.accepted.Add(nj.delay + 60*time.Millisecond)); wait > 0 {
 					time.Sleep(wait)
 				}
+			}
+		case "TASKCANCELED":
+			if nj := w.job(f[1]); nj != nil {
+				w.mu.Lock()
+				nj.cancelOne++
+				w.mu.Unlock()
+				time.Sleep(80 * time.Millisecond)
 			}
 		case "CGO":
 			time.Sleep(60 * time.Millisecond)
